@@ -641,6 +641,71 @@ def metamorphic(run: Run, thorough: bool):
         shutil.rmtree(wd, ignore_errors=True)
 
 
+# ----------------------------------------------------------------------------- prior activity: the process-wide default dtype
+
+
+def dtype_history(run: Run, thorough: bool):
+    """`torch.set_default_dtype(torch.float64)` called earlier in the interpreter (double-precision work between building the
+    inputs and the seeded call) is prior activity like any other: model and Dataset are built first (single precision, as always),
+    the default dtype is switched, the seeded call is made, the default is restored; the result must be the one of the same call
+    made without the switch, and the call must not abort."""
+    import torch
+    from harness import synth
+    from leaspy.algo import AlgorithmSettings
+    from leaspy.io.data.dataset import Dataset
+    from leaspy.models import BaseModel
+    kinds = ["logistic"] + (["linear", "joint", "shared_speed_logistic"] if thorough else ["linear"])
+    seed = 5 + run.seed % 50
+    wd = tmpdir()
+    try:
+        for kind in kinds:
+            df = cohort(kind, seed=2, n_ind=8)
+            calls = [("mcmc_saem", dict(n_iter=12)), ("mean_posterior", dict(n_iter=10)), ("mode_posterior", dict(n_iter=10)), ("scipy_minimize", {})]
+            try:
+                with quiet(wd):
+                    base, _ = synth.fit(kind, n_iter=10, seed=2, n_ind=8, n_feat=MODEL_SHAPES[kind][0], source_dimension=MODEL_SHAPES[kind][1], df=df)
+                    mj = os.path.join(wd, f"dtype-{kind}.json")
+                    base.save(mj)
+            except Exception as e:
+                run.fail(f"fit:abort:{type(e).__name__}", f"fit raised {type(e).__name__}: {e}", dict(kind=kind, variant="default-dtype"))
+                continue
+            for algo, kw in calls:
+                desc = dict(algo=algo, kind=kind, seed=seed, variant="default-dtype-float64-set-before-the-call", **kw)
+                out = []
+                for dt in (torch.float32, torch.float64):
+                    with quiet(wd):
+                        ds = Dataset(synth.make_data(df, kind))
+                        if algo == "mcmc_saem":
+                            model = new_model(kind)
+                            model.initialize(ds)
+                        else:
+                            model = BaseModel.load(mj)
+                        st = AlgorithmSettings(algo, seed=seed, progress_bar=False, **kw)
+                        torch.set_default_dtype(dt)
+                        try:
+                            if algo == "mcmc_saem":
+                                model.fit(ds, algorithm_settings=st)
+                                out.append(digest_params(model))
+                            else:
+                                out.append(digest_df(model.personalize(ds, algorithm_settings=st).to_dataframe().sort_index()))
+                        except Exception as e:
+                            out.append(("exc", type(e).__name__, str(e)[:160]))
+                        finally:
+                            torch.set_default_dtype(torch.float32)
+                run.case(("dtype-history", kind, algo, seed), nontrivial=True)
+                run.count("dtype_history", algo)
+                if isinstance(out[0], tuple):
+                    run.fail(f"{algo}:abort:{out[0][1]}", f"{algo} raised {out[0][1]}: {out[0][2]}", desc)
+                elif isinstance(out[1], tuple):
+                    run.fail(f"history:default-dtype-float64:{algo}:aborts", f"the seeded call aborts when torch's default dtype was set to float64 earlier in the "
+                             f"interpreter ({out[1][1]}: {out[1][2]}); without the switch it finishes", desc, expected="run finishes", observed=f"{out[1][1]}: {out[1][2]}")
+                elif out[0] != out[1]:
+                    run.fail(f"history:default-dtype-float64:{algo}", "same seed, model, Dataset and settings: the result differs when torch's default dtype was set "
+                             "to float64 earlier in the interpreter", desc, expected=out[0], observed=out[1])
+    finally:
+        shutil.rmtree(wd, ignore_errors=True)
+
+
 def check_equal(run, ref, got, desc, name):
     algo = desc["algo"]
     if got["digest"] != ref["digest"]:
@@ -730,6 +795,7 @@ def main(run: Run):
         settings_copy(run)
         observer_purity(run)
         metamorphic(run, thorough)
+        dtype_history(run, thorough)
     finally:
         shutil.rmtree(SCRATCH, ignore_errors=True)
     return run.finish()
